@@ -530,6 +530,16 @@ class FunTerm:
             else:
                 base = cur
             ents = old + payload[1]
+            # element-wise update of a whole list:  for i in range(len(L)): L[i] op= v   ->  [L[i] op v for i ...]
+            if base is not None and not old and len(payload[1]) == 1:
+                kind, key, val, ctx = payload[1][0]
+                if len(ctx) == 1 and not ctx[0][2] and isinstance(ctx[0][0], tuple) and ctx[0][0][0] == "range" and ctx[0][0][1] == tm.ZERO \
+                        and ctx[0][0][2] == tm.atom_poly(("call", "len", (tm.norm_iter(base),))) and key == tm.sym(f"#{ctx[0][1]}"):
+                    cur_el = tm.subscript(base, key)
+                    new_el = {"scale": tm.mul(cur_el, val), "inc": tm.add(cur_el, val), "set": val}.get(kind)
+                    if new_el is not None:
+                        self.env[nm] = tm.atom_poly(("seq", new_el, ctx[0][0], ctx[0][1]))
+                        return
             self.env[nm] = tm.atom_poly(("dictacc", tuple(ents)) + ((base,) if base is not None else ()))
 
     def fresh_level(self) -> int:
